@@ -5,7 +5,7 @@ import vlib, taintfam
 
 TIERS = {
     'quick': dict(bounds='k2d0+k1d1', cfgs='c01q', horizon=6, cli=24),
-    'thorough': dict(bounds='k2d1+k1d2', cfgs='c01', horizon=8, cli=120),
+    'thorough': dict(bounds='k2d0+k1d1', cfgs='c01', horizon=8, cli=120),
 }
 
 
